@@ -37,14 +37,13 @@ DefaultTTL   == 30000
 (***************************************************************************)
 (* Backend deviations (finding names).  A deviation that is enabled in     *)
 (* C.dev selects the as-is behaviour of one backend where the two runnable *)
-(* backends were observed to differ beyond the documented choice points.   *)
-(* The C13 check runs with C.dev = {} on both backends.                    *)
-(*   "PruneThenSweep"  SQLite dequeue prunes before it sweeps (memory:     *)
-(*                     sweep, then prune)                                   *)
-(*   "SingleDropOne"   SQLite single Enqueue under drop_oldest evicts      *)
-(*                     exactly one message even when active > max_depth    *)
-(*   "NoTrimSingle"    memory single lease ops do not trim the lease id    *)
-(*   "RawDeadReason"   memory keeps a blank dead reason as given           *)
+(* backends are observed to differ beyond the documented choice points.    *)
+(* The C13 check runs with C.dev = {} on both backends.  The four          *)
+(* deviations found on the pinned tree (sweep/prune order in dequeue,      *)
+(* single-enqueue eviction count above the limit, lease-id trimming in     *)
+(* single lease operations, blank dead reason) were repaired in the        *)
+(* repository (known_findings.txt, "fixed:"), so no deviation is defined   *)
+(* at present; the mechanism stays for future findings.                    *)
 (***************************************************************************)
 Dev(C, name) == name \in C.dev
 
@@ -121,8 +120,7 @@ NeedEvict(C, M, n, single) ==
   ELSE LET over(x) == Max2(0, x + n - C.maxDepth)
            kAct    == over(Active(M))
            kDel    == IF C.delivGuard /\ C.delivMaxAge > 0 THEN over(ActiveDeliv(M)) ELSE 0
-       IN IF single /\ Dev(C, "SingleDropOne") THEN Min2(1, kAct)
-          ELSE Max2(kAct, kDel)
+       IN Max2(kAct, kDel)
 
 \* victims: k oldest queued messages, "oldest" by received_at or by insertion
 VictimSets(S, k) ==
@@ -186,14 +184,13 @@ Ready(M, rt, tg, t) ==
                     /\ (tg = "" \/ M[i].tg = tg)
                     /\ M[i].next <= t}
 
-\* the state just before candidate selection: sweep and prune, in the
-\* backend's order.  Set of [msgs, lp, ls, gone].
+\* the state just before candidate selection: retention prune, then the
+\* expired-lease sweep (if due).  A message whose lease just ran out is
+\* therefore offered again, not pruned in the same call.  Set of [msgs, lp, ls, gone].
 DeqPre(C, S, t) ==
   LET sw(M) == IF SweepDue(C, S.ls, t) THEN Sweep(M, t) ELSE M
       ls2   == NewSweep(C, S.ls, t)
-  IN IF Dev(C, "PruneThenSweep")
-     THEN {[msgs |-> sw(p.msgs), lp |-> p.lp, ls |-> ls2, gone |-> p.gone] : p \in PruneOutcomes(C, S.msgs, S.lp, t)}
-     ELSE {[msgs |-> p.msgs, lp |-> p.lp, ls |-> ls2, gone |-> p.gone] : p \in PruneOutcomes(C, sw(S.msgs), S.lp, t)}
+  IN {[msgs |-> sw(p.msgs), lp |-> p.lp, ls |-> ls2, gone |-> p.gone] : p \in PruneOutcomes(C, S.msgs, S.lp, t)}
 
 Lease(m, lid, t, ttl) == [m EXCEPT !.st = "leased", !.att = m.att + 1, !.lease = lid,
                                     !.until = t + ttl, !.next = t + ttl]
@@ -297,6 +294,20 @@ Select(M, rk, op, f) ==
   IF f.st # "" /\ f.st \notin AllowedFrom(op) THEN {}
   ELSE TopNewest(M, rk, {i \in DOMAIN M : M[i].st \in AllowedFrom(op) /\ Matches(M[i], f)}, EffLimit(f.limit))
 
+\* Linear-time characterisation of the same selection, for large tables: Sel is
+\* the set of the k newest (desc) / oldest (asc) candidates, k = min(lim, |cand|).
+SelKey(M, rk, a) == M[a].recv * 2000 + rk[a]       \* (received_at, id) as one integer; rk < 2000
+FilterCand(M, op, f) ==
+  IF f.st # "" /\ f.st \notin AllowedFrom(op) THEN {}
+  ELSE {i \in DOMAIN M : M[i].st \in AllowedFrom(op) /\ Matches(M[i], f)}
+IsTopK(M, rk, cand, Sel, lim, desc) ==
+  LET k    == Min2(lim, Cardinality(cand))
+      rest == cand \ Sel
+      keys(X) == {SelKey(M, rk, a) : a \in X}
+  IN /\ Sel \subseteq cand /\ Cardinality(Sel) = k
+     /\ (Sel = {} \/ rest = {} \/
+         (IF desc THEN Min(keys(Sel)) > Max(keys(rest)) ELSE Max(keys(Sel)) < Min(keys(rest))))
+
 (***************************************************************************)
 (* Listings (pure reads after the prune step)                              *)
 (***************************************************************************)
@@ -330,7 +341,8 @@ MsgOK(m) ==
 
 StoreOK(M) ==
   /\ \A i \in DOMAIN M : MsgOK(M[i])
-  /\ \A a, b \in DOMAIN M : a # b /\ M[a].lease # "" => M[a].lease # M[b].lease
+  /\ LET L == {i \in DOMAIN M : M[i].lease # ""}      \* lease ids are unique
+     IN Cardinality({M[i].lease : i \in L}) = Cardinality(L)
 
 (***************************************************************************)
 (* Step properties (C02 / C03): relate the message table before (M) and    *)
@@ -356,7 +368,7 @@ LegalEdges(cls) ==
 \* states from which a message may disappear in a call of class cls
 VanishFrom(cls) ==
   CASE cls = "enqueue" -> {"queued", "dead", "delivered"}       \* prune, drop_oldest (queued only)
-    [] cls = "dequeue" -> {"queued", "dead", "delivered", "leased"} \* prune (leased: only once expired)
+    [] cls = "dequeue" -> {"queued", "dead", "delivered"}       \* prune
     [] cls = "lease"   -> {"leased"}                             \* ack without delivered retention
     [] cls = "deletedead" -> {"dead"}
     [] cls = "read"    -> {"queued", "dead", "delivered"}        \* prune
@@ -366,7 +378,6 @@ StepLegal(cls, M, M2, newIds, t) ==
   /\ \A i \in (DOMAIN M2 \ DOMAIN M) : i \in newIds                        \* nothing revived or invented
   /\ \A i \in (DOMAIN M \ DOMAIN M2) :
         /\ M[i].st \in VanishFrom(cls)
-        /\ M[i].st = "leased" /\ cls = "dequeue" => Expired(M[i], t)
   /\ \A i \in (DOMAIN M \cap DOMAIN M2) \ newIds :
         LET a == M[i] b == M2[i]
         IN /\ a.rt = b.rt /\ a.tg = b.tg /\ a.pl = b.pl /\ a.hd = b.hd /\ a.tr = b.tr /\ a.recv = b.recv
